@@ -64,6 +64,13 @@ int main(void) {
   const int shifts = (op == OP_shift_left || op == OP_shift_right || op == OP_assign_shift_left || op == OP_assign_shift_right);
   /* ---- the reference: class of outcome and value, computed BEFORE the call (assumptions are not retroactive) */
   const ART A_ = CVT_L(a), B_ = CVT_R(b);
+#if ARITH_FLOAT
+  { ART s1 = ADD(A_, B_), s2 = ADD(B_, A_), p1 = MUL(A_, B_), p2 = MUL(B_, A_);      /* same bits: the symbols are uninterpreted, so 'same value' has to be said as 'same representation' */
+    __CPROVER_assume(memcmp(&s1, &s2, sizeof s1) == 0 && memcmp(&p1, &p2, sizeof p1) == 0); }
+#endif
+#ifdef DIVREM_NARROW_LEMMA
+  __CPROVER_assume(DIVREM_NARROW_LEMMA(A_, B_));  /* x / y and x % y of two small non-negative values do not depend on the width or signedness they are computed in */
+#endif
 #ifdef MUL_NARROW_LEMMA
   __CPROVER_assume(MUL_NARROW_LEMMA(A_, B_));     /* trunc(x * y) == trunc(x) * trunc(y): holds for every two's complement multiplier */
 #endif
